@@ -983,15 +983,54 @@ def pool_map(fn, items):
         return list(ex.map(fn, items))
 
 
+def twap_resampled(rnd, n_runs):
+    """get_twap_price on RESAMPLED data (bars 5 / 60 minutes apart): {(token, ("F", F, bar symbols so far)): (value, raw path)}"""
+    import contextlib
+    import io
+    from demeter import Strategy
+    out = {}
+    for F in (5, 60):
+        for _ in range(n_runs):
+            nb = rnd.randint(3, 5)
+            raw = []
+            bars = []
+            for _b in range(nb):
+                first = rnd.randint(1, len(ROWS))
+                bars.append(first)
+                raw += [first] + [rnd.randint(1, len(ROWS)) for _x in range(F - 1)]     # resample(...).first(): the bar's row is its first raw row
+            act, um, sm = build_actuator(raw, 0)
+            act.interval = f"{F}min"
+            weth, osqth, _, _ = _tokens()
+            seen = []
+
+            class S(Strategy):
+                def on_bar(self_, snap):
+                    i = snap.row_id
+                    key = ("F", F, tuple(bars[:i + 1]))
+                    out.setdefault(("eth", key), (frac(sm.get_twap_price(weth)), tuple(raw)))
+                    out.setdefault(("sq", key), (frac(sm.get_twap_price(osqth)), tuple(raw)))
+                    seen.append(i)
+            act.strategy = S()
+            with contextlib.redirect_stdout(io.StringIO()):
+                act.run(print_result=False)
+            if seen != list(range(nb)):
+                raise RuntimeError(f"resampled TWAP run visited bars {seen}, expected {nb}")
+    return out
+
+
 def twap_obs_module(obs):
     rows = []
     for (tok, win), (g, _) in obs:
         f = "eth" if tok == "eth" else "sq"
+        if win and win[0] == "F":      # resampled run: ("F", minutes per bar, symbols of every bar so far) - the spec denotes the window
+            ps = ", ".join(q_tla(ROWS[s - 1][f]) for s in win[2])
+            rows.append(f"[g |-> {q_tla(g)}, ps |-> TwapWindow(<<{ps}>>, {win[1]})]")
+            continue
         ps = ", ".join(q_tla(ROWS[s - 1][f]) for s in win)
         rows.append(f"[g |-> {q_tla(g)}, ps |-> <<{ps}>>]")
     return ("------------------------------ MODULE TwapObs ------------------------------\n"
             "(* GENERATED: get_twap_price values recorded from the real code, with the prices of the window the spec denotes *)\n"
-            "EXTENDS Num\nObs == <<\n  " + ",\n  ".join(rows) + "\n>>\n"
+            "EXTENDS Num, SqueethTwap\nObs == <<\n  " + ",\n  ".join(rows) + "\n>>\n"
             "=============================================================================\n")
 
 
@@ -1076,7 +1115,8 @@ def run(chk: Check) -> int:
             twap.setdefault(k, v)
 
     # 4. every TWAP value the code returned, validated by TLC against the relational definition
-    obs = sorted(twap.items(), key=lambda kv: (kv[0][0], kv[0][1]))
+    twap.update(twap_resampled(rnd, 6 if chk.tier == "quick" else 60))
+    obs = sorted(twap.items(), key=lambda kv: (kv[0][0], str(kv[0][1])))
     if obs:
         td = chk.tmp / "trace"
         td.mkdir()
@@ -1092,6 +1132,12 @@ def run(chk: Check) -> int:
         chk.extra["twap_observations_validated_by_tlc"] = int(m.group(2))
         for i in bad[:4]:
             (tok, win), (g, prefix) = obs[i - 1]
+            if win and win[0] == "F":
+                chk.violation(f"SqueethMarket.get_twap_price|twap_relational|resampled_{win[1]}min",
+                              f"get_twap_price({tok}) = {float(g)!r} on bars {win[1]} minutes apart with prices {[ROWS[s - 1][tok] for s in win[2]]} is not the "
+                              f"geometric mean of the bars within [now - 6 min, now] (TwapOk fails)",
+                              {"kind": "twap_resampled", "token": tok, "F": win[1], "bars": list(win[2]), "path": list(prefix), "value": str(g)})
+                continue
             chk.violation(f"SqueethMarket.get_twap_price|twap_relational|window_{len(win)}",
                           f"get_twap_price({tok}) = {float(g)!r} for window prices {[ROWS[s - 1][tok] for s in win]} is not their "
                           f"geometric mean within 1e-9 (TwapOk fails)", {"kind": "twap", "token": tok, "window": list(win), "path": list(prefix), "value": str(g)})
